@@ -670,6 +670,32 @@ type result struct {
 	outs    []outcome
 	taint   string
 	f0      string
+	kf0     string // real mode: the kernel's frequency (scaled ppm) after the first op
+}
+
+const kfMoved = "kernel-frequency-moved"
+const endedEarly = "slew-ended-early"
+
+// early: did an expiry goroutine finish before the whole seconds its Adjust had to ask for? (the
+// machine's clock may have been stepped by someone else meanwhile: decided by re-running)
+func early(r *result) string {
+	secs := map[string]int64{}
+	for _, o := range r.outs {
+		t, f := strings.Fields(o.op), strings.Fields(o.ans)
+		if t[0] == "sc.adjust" && len(t) == 4 && len(f) > 0 && f[0] == "ok" && strings.HasPrefix(f[len(f)-1], "spawn:") {
+			if d, err := strconv.ParseInt(t[2], 10, 64); err == nil && d >= 0 {
+				secs[f[len(f)-1][6:]] = normDur(d) / 1e9
+			}
+		}
+		if t[0] == "sc.expire" && len(t) == 2 {
+			if el, err := strconv.ParseInt(o.side["el"], 10, 64); err == nil {
+				if want, ok := secs[t[1]]; ok && el < want*1000-25 {
+					return fmt.Sprintf("%s:%dms<%ds", endedEarly, el, want)
+				}
+			}
+		}
+	}
+	return ""
 }
 
 // runPlan executes one history in its own child, in real time.
@@ -695,6 +721,15 @@ func runPlan(p *plan) *result {
 		if tn, ok := side["taint"]; ok && r.taint == "" {
 			r.taint = tn
 		}
+		if kf, ok := side["kf"]; ok {
+			if r.kf0 == "" {
+				r.kf0 = kf
+			} else if kf != r.kf0 && r.taint == "" {
+				// somebody moved the kernel's frequency: this history (zero-effect calls only), or
+				// another process on the machine — decided by re-running it
+				r.taint = kfMoved + ":" + r.kf0 + "->" + kf
+			}
+		}
 		if strings.HasPrefix(ans, "err expire-timeout") && r.taint == "" {
 			r.taint = "expire-timeout"
 		}
@@ -719,6 +754,9 @@ func runPlan(p *plan) *result {
 		if !do(op) {
 			return r
 		}
+	}
+	if r.taint == "" {
+		r.taint = early(r)
 	}
 	return r
 }
@@ -863,7 +901,6 @@ func judge(c *lib.Ctx, r *result) {
 	pending := map[int]pendO{}
 	var pllEpoch uint64 // the epoch the PLL recorded at its last update
 	pllSeen := false
-	kf0 := ""
 	for _, o := range r.outs {
 		ops = append(ops, o.op)
 		t := strings.Fields(o.op)
@@ -873,14 +910,6 @@ func judge(c *lib.Ctx, r *result) {
 			return
 		}
 		c.Count(t[0] + ":" + f[0])
-		if kf, ok := o.side["kf"]; ok {
-			if kf0 == "" {
-				kf0 = kf
-			} else if kf != kf0 {
-				fail("C19:sysclk-kernel-frequency-moved", "zero-effect calls on the real clock changed the kernel's frequency", map[string]any{"before": kf0, "after": kf})
-				kf0 = kf
-			}
-		}
 		var e uint64
 		var acts []string
 		haveE := false
@@ -1422,6 +1451,17 @@ func gen(c *lib.Ctx) {
 			c.Count("history:child-exited")
 			c.NotExecuted("history " + res.p.name + ": the child process exited (a syscall was refused?)")
 			continue
+		case strings.HasPrefix(res.taint, kfMoved):
+			// three runs of a history of zero-effect calls, each time the kernel's frequency moved
+			var ops []string
+			for _, o := range res.outs {
+				ops = append(ops, o.op)
+			}
+			c.Fail("C19:sysclk-kernel-frequency-moved", "zero-effect calls on the real clock (Step(0), Adjust(0, d, current frequency)) changed the kernel's frequency, three runs out of three",
+				ops, map[string]any{"scaled_ppm": res.taint})
+			continue
+		case strings.HasPrefix(res.taint, endedEarly):
+			// three runs out of three: judged below (C19:sysclk-slew-duration)
 		case res.taint != "":
 			c.Count("history:timing-unreliable-dropped")
 			if os.Getenv("C19CLK_DEBUG") != "" {
